@@ -457,16 +457,65 @@ impl Synth {
                     let gchk = real.check(&self.vp1);
                     let same = chk == format!("{}", gchk as u8);
                     if !same {
-                        if dup {
-                            ctx.count("fromdual:repeated-label:check-differs-from-guard");
-                        } else {
-                            ctx.oracle_fail("from_dual_msm:changes-verdict", "Accumulator::from_dual_msm(guard).check differs from guard.check", json!({"op": line, "acc_check": chk, "guard_check": gchk}));
-                        }
-                    } else if dup {
-                        ctx.count("fromdual:repeated-label:check-same");
+                        // regression of 348977f when a fixed label repeats
+                        ctx.oracle_fail(
+                            if dup { "from_dual_msm:repeated-label" } else { "from_dual_msm:changes-verdict" },
+                            "Accumulator::from_dual_msm(guard).check differs from guard.check",
+                            json!({"op": line, "acc_check": chk, "guard_check": gchk}),
+                        );
                     }
                 }
                 Err(_) => ctx.case(kind, true, &line, "panic"),
+            }
+        }
+    }
+
+    /// Regression of 348977f: the guard `r·g₁ + g₂ (+ …)` of several proofs under ONE key (every
+    /// fixed label and `-G` occur once per member) converted with `from_dual_msm`.
+    pub fn from_dual_sum(&mut self, ctx: &mut Ctx, n: usize) {
+        let mut rng = ctx.rng("c15:fromdual-sum");
+        for i in 0..n {
+            let pfx = "inner_vk";
+            let fb = self.fixed_setup(&mut rng, &[pfx]);
+            let k = 2 + i % 3;
+            let bad = if i % 2 == 1 { Some(rng.gen_range(0..k)) } else { None };
+            let r = rand_scalar(&mut rng);
+            let gs: Vec<SDual> = (0..k)
+                .map(|j| {
+                    let d = if bad == Some(j) { nonzero(&mut rng) } else { F::ZERO };
+                    self.gen_proof_dual(&mut rng, &fb, pfx, d, false)
+                })
+                .collect();
+            let mut line = format!("dual-seq struct {} {}", fe_hex(&self.tau1), gs[0].text());
+            let mut real = gs[0].real(&mut self.pts);
+            let mut sum = gs[0].clone();
+            for g in &gs[1..] {
+                real.scale(r);
+                real.add_msm(g.real(&mut self.pts));
+                line.push_str(&format!(" s={} a={}", fe_hex(&r), g.text()));
+                for t in sum.left.iter_mut().chain(sum.right.iter_mut()) {
+                    t.s *= r;
+                }
+                sum.left.extend(g.left.clone());
+                sum.right.extend(g.right.clone());
+            }
+            ctx.case("dual-seq:sum-of-proof-guards", true, &line, &dual_str(&real, &self.pts));
+            let fb_map = fb_real(&fb, &mut self.pts);
+            let fline = format!("fromdual {pfx} {} {}", sum.text(), fb_text(&fb));
+            match catch(|| Accumulator::<S>::from_dual_msm(real.clone(), pfx, &fb_map)) {
+                Ok(acc) => {
+                    ctx.case("fromdual:sum-of-guards", true, &fline, &acc_str(&acc, &self.pts, false));
+                    let chk = self.acc_check_str(&acc, &fb_map);
+                    let gchk = real.check(&self.vp1);
+                    if chk != format!("{}", gchk as u8) {
+                        ctx.oracle_fail("from_dual_msm:repeated-label", "Accumulator::from_dual_msm of a sum of guards under one key: check differs from the guard's check", json!({"op": fline, "acc_check": chk, "guard_check": gchk}));
+                    }
+                    ctx.count(&format!("fromdual:sum-of-guards:{}", if gchk { "valid" } else { "invalid" }));
+                }
+                Err(p) => {
+                    ctx.oracle_fail("from_dual_msm:panic", "Accumulator::from_dual_msm panics on a sum of guards under one key", json!({"op": fline, "panic": p}));
+                    ctx.case("fromdual:sum-of-guards", true, &fline, "panic");
+                }
             }
         }
     }
@@ -615,6 +664,104 @@ impl Synth {
                     ctx.case(&kind, false, line.trim_end(), "panic");
                     if k > 0 {
                         ctx.oracle_fail("accumulate:panic", "Accumulator::accumulate panics on a non-empty slice", json!({"op": line}));
+                    }
+                }
+            }
+        }
+    }
+
+    /// The attack that succeeds iff the combination challenge of `accumulate` ignores one
+    /// component of member `j`: members valid except `i` (defect `dᵢ`); the challenge `r` used on
+    /// this batch is read off the output; the chosen component of member `j` (an lhs/rhs scalar, an
+    /// lhs/rhs base, a fixed-base scalar) is then changed so that member `j` gets the defect
+    /// `−r^(i−j)·dᵢ` that cancels member `i` AT THAT `r`; the batch is accumulated again. A
+    /// challenge that hashes every component of every member is different the second time.
+    pub fn adaptive_acc(&mut self, ctx: &mut Ctx, reps: usize) {
+        let mut rng = ctx.rng("c15:adaptive-acc");
+        let tau = self.tau1;
+        let fb = vec![("-G".to_string(), -F::ONE), ("vkA_fixed_com_0".to_string(), F::from(77))];
+        let fb_map = fb_real(&fb, &mut self.pts);
+        let nz = |rng: &mut ChaCha8Rng| F::from(rng.next_u64() | 1);
+        for rep in 0..reps {
+            for n in [2usize, 3, 5] {
+                for i in 0..n {
+                    for j in 0..n {
+                        if i == j {
+                            continue;
+                        }
+                        for comp in 0..5 {
+                            if (rep + n + i + j + comp) % 2 == 1 && reps < 4 {
+                                continue;
+                            }
+                            // members: lhs one term, rhs two terms + "-G" scalar, all non-zero
+                            let mut ms: Vec<(SMsm, SMsm)> = (0..n)
+                                .map(|k| {
+                                    let d = if k == i { nz(&mut rng) } else { F::ZERO };
+                                    let (ls, lb) = (if k == j { nz(&mut rng) } else { F::ONE }, nz(&mut rng));
+                                    let (s1, b1, g) = (nz(&mut rng), nz(&mut rng), nz(&mut rng));
+                                    // τ·ls·lb − (s1·b1 + s2·b2 − g) = d
+                                    let b2 = nz(&mut rng);
+                                    let s2 = (tau * ls * lb - d - s1 * b1 + g) * b2.invert().unwrap();
+                                    (
+                                        SMsm { terms: vec![(ls, lb)], fixed: vec![] },
+                                        SMsm { terms: vec![(s1, b1), (s2, b2)], fixed: vec![("-G".to_string(), g)] },
+                                    )
+                                })
+                                .collect();
+                            let d_i = {
+                                let (l, r) = &ms[i];
+                                tau * l.terms[0].0 * l.terms[0].1 - (r.terms[0].0 * r.terms[0].1 + r.terms[1].0 * r.terms[1].1 - r.fixed[0].1)
+                            };
+                            let build = |ms: &[(SMsm, SMsm)], pts: &mut Pts| -> Vec<Accumulator<S>> {
+                                ms.iter().map(|(l, r)| Accumulator::<S>::new(l.real(pts), r.real(pts))).collect()
+                            };
+                            let accs = build(&ms, &mut self.pts);
+                            let out = Accumulator::<S>::accumulate(&accs);
+                            // member k contributes the lhs scalar rᵏ·lsₖ at position k
+                            let sc = out.lhs().scalars();
+                            // position 1 holds r·ls₁
+                            let r = sc[1] * ms[1].0.terms[0].0.invert().unwrap();
+                            let target = if i > j { -r.pow([(i - j) as u64]) * d_i } else { -r.invert().unwrap_or(F::ONE).pow([(j - i) as u64]) * d_i };
+                            // give member j the defect `target` by changing ONE component
+                            let (l, rr) = &mut ms[j];
+                            let what = match comp {
+                                0 => {
+                                    let (s, b) = rr.terms[0];
+                                    rr.terms[0] = (s - target * b.invert().unwrap(), b);
+                                    "rhs-scalar"
+                                }
+                                1 => {
+                                    rr.fixed[0].1 += target;
+                                    "rhs-fixed-scalar"
+                                }
+                                2 => {
+                                    let (s, b) = l.terms[0];
+                                    l.terms[0] = (s + target * (tau * b).invert().unwrap(), b);
+                                    "lhs-scalar"
+                                }
+                                3 => {
+                                    let (s, b) = rr.terms[0];
+                                    rr.terms[0] = (s, b - target * s.invert().unwrap());
+                                    "rhs-base"
+                                }
+                                _ => {
+                                    let (s, b) = l.terms[0];
+                                    l.terms[0] = (s, b + target * (tau * s).invert().unwrap());
+                                    "lhs-base"
+                                }
+                            };
+                            let accs2 = build(&ms, &mut self.pts);
+                            let out2 = Accumulator::<S>::accumulate(&accs2);
+                            let chk = self.acc_check_str(&out2, &fb_map);
+                            ctx.count(&format!("accumulate:adaptive-attack:{what}:{}", if chk == "1" { "ACCEPTED" } else { "rejected" }));
+                            if chk != "0" {
+                                ctx.oracle_fail(
+                                    &format!("accumulate:accepts-invalid:adaptive:{what}"),
+                                    "Accumulator::accumulate accepts a batch with invalid members chosen after observing the combination challenge (the challenge does not depend on that component)",
+                                    json!({"n": n, "i": i, "j": j, "component": what, "accs": ms.iter().map(|(l, r)| format!("{}|{}", l.text(), r.text())).collect::<Vec<_>>(), "fb": fb_text(&fb), "tau": fe_hex(&tau)}),
+                                );
+                            }
+                        }
                     }
                 }
             }
